@@ -23,6 +23,10 @@ P = {
          "any sequence of well-formed frames is delivered/skipped frame by frame; real FrameReader + asyncio.StreamReader run on generated "
          "sequences under many chunkings with arrival interleaved with reader progress.",
          "chunk independence itself is a property of asyncio.StreamReader (CPython), exercised not proved."),
+ "C19": ("Theorems C19_fixed (every representable value of every integer width/signedness, float/double bit pattern, IPv4/IPv6, NUL-terminated "
+         "string: unpack(pack v ++ trailing) = (v, size), size = |pack v|), C19_var (length-prefixed strings/bytes up to 255 bytes), C19_bit "
+         "(bit i of the byte, occupies the byte only at i=7, index cycles) - all closed; implementation checked for the same relation on generated values "
+         "including non-ASCII text.", "text<->bytes (UTF-8), inet_* formatting and double<->single conversion are CPython's."),
  "C14": ("Theorems C14_noise (documented outcomes, progress, bounded wait <= 1000 bytes after the delimiter, tiling, iteration ends with the "
          "broken-stream signal) and C14_resync_clean (closed); the full resynchronisation clause is refuted in Coq (C14_resync_refuted) and "
          "recorded as known finding D16; implementation checked for P14 and for the resync bound on every generated run.",
